@@ -16,12 +16,14 @@ def sh(cmd, cwd=None, timeout=3600):
 
 def items():
     out = []
-    for p in ["c12", "c16", "c17", "c18", "c19"]:
+    props = {"c12": "C12", "c16": "C16", "c17": "C17", "c18": "C18", "c19": "C19", "r2a": "C18", "r2b": "C17", "r2c": "C12", "r2d": "C16",
+             "r3a": "C18", "r3b": "C17", "r3c": "C12", "r3d": "C16", "r3e": "C19"}
+    for p, prop in props.items():
         wt = f"/tmp/wt-{p}"
         for k in sorted(os.listdir(f"{wt}/_seeded")) if os.path.isdir(f"{wt}/_seeded") else []:
             d = f"{wt}/_seeded/{k}"
             if os.path.exists(f"{d}/patch.diff"):
-                out.append((f"{p}-{k}", p.upper(), wt, d))
+                out.append((f"{p}-{k}", prop, wt, d))
     return out
 
 def phase1_one(item):
@@ -48,7 +50,9 @@ def phase1(sel):
         for rs in ex.map(run_wt, by_wt.values()):
             results.extend(rs)
     os.makedirs("/verif/work", exist_ok=True)
-    json.dump(results, open("/tmp/seeded-phase1.json", "w"), indent=1)
+    prev = json.load(open("/tmp/seeded-phase1.json")) if os.path.exists("/tmp/seeded-phase1.json") else []
+    ids = {r["id"] for r in results}
+    json.dump([r for r in prev if r["id"] not in ids] + results, open("/tmp/seeded-phase1.json", "w"), indent=1)
     for r in results:
         print(r["id"], "applies", r["applies"], "build", r["build_ok"], "tests", r["tests_pass_fail"], "demo pristine", r["demo_pristine_exit"], "patched", r["demo_patched_exit"])
 
